@@ -756,6 +756,16 @@ func crashGen(r *rand.Rand, n int, thorough bool) []Case {
 			}
 			ops = append(ops, "txn "+strings.Join(kvs, ","))
 			tags = append(tags, "large-batch")
+			if c%2 == 0 {
+				// … and one far above any staging-buffer size one might think of (64 KiB, 128 KiB, 256 KiB)
+				kvs = nil
+				n, sz := 5+r.Intn(4), 20000+r.Intn(25000)
+				for j := 0; j < n; j++ {
+					kvs = append(kvs, hxs(userKeys[r.Intn(nk)]+fmt.Sprintf("-huge%d", j))+"="+hx(bytes.Repeat([]byte{byte('a' + j)}, sz+r.Intn(3000))))
+				}
+				ops = append(ops, "txn "+strings.Join(kvs, ","))
+				tags = append(tags, "huge-batch")
+			}
 		}
 		cases = append(cases, Case{Ops: ops, Tags: tags})
 	}
